@@ -340,6 +340,27 @@ def r5_fallback_marks_every_local(ctx):
     bit-set helpers (shared with C03-R4d: same word width, the count itself is what is divided)."""
     from .c03 import r4d_bitset_arithmetic_agrees
     r4d_bitset_arithmetic_agrees(ctx)
+    # the unused-variable report has the same fallback: a call whose summary is unavailable may read every variable of the
+    # function *making* the call (that is where the variables a callee can capture live) - not those of the callee, whose own
+    # locals nobody else can read.  With the callee's, budget exhaustion adds `never read` warnings instead of only removing them.
+    n = 0
+    for fn in ctx.lib.fns.values():
+        if not fn.file.startswith("src/analysis/"):
+            continue
+        for c in fn.calls():
+            if not (c.callee or "").endswith("::mark_function_locals_used") or len(c.args) < 3:
+                continue
+            n += 1
+            ctx.touch(fn)
+            who = sh(ne(fn.deep(c.args[2], 14)))
+            gated = any(si["kind"] in ("place", "un", "field") or "available" in sh(ne(fn.deep(fn.blocks[S]["t"]["d"], 6))) for S, al in fn.constraints(c.block) for si in [fn.switch_info(S)])
+            if "direct_callees" in who or "callee" in who:
+                ctx.bad("fallback|unused-variables|marks-callee", fn.where(c.block), "when a callee's summary is unavailable, %s marks the locals of `%s` (the callee) as read instead of those of the calling function: a variable read only through that call is reported as never read" % (parent_fn(fn.id).split("::")[-1], who[:60]))
+            elif ".function" in who or who.endswith("function"):
+                ctx.ok("fallback|unused-variables|marks-caller", fn.where(c.block), "marks the locals of %s" % who[:50])
+            else:
+                ctx.bad("fallback|unused-variables|marks|%s" % who[:24], fn.where(c.block), "the fallback marks the locals of `%s`, not of the function being scanned" % who[:60])
+    ctx.floor("summary-unavailable fallbacks of the unused-variable report", n, 1)
 
 
 def r6_budget_charges_growth_only(ctx):
@@ -403,7 +424,43 @@ def r7_bit_sets_are_sized_in_words(ctx):
         ctx.bad("bitset-size|word_count-shape", wc.where(), "word_count no longer computes ceil(n / 64) in a recognised form (%s)" % t[:80])
 
 
-RULES = [("C18-R1", r1_skip_path), ("C18-R2", r2_every_cap_compared), ("C18-R2b", r2b_derived_bounds_shape), ("C18-R3", r3_no_plan_runs_everything), ("C18-R3b", r3b_facts_independent_of_plan), ("C18-R4", r4_caps_only_gate_the_analyses), ("C18-R5", r5_fallback_marks_every_local), ("C18-R6", r6_budget_charges_growth_only), ("C18-R7", r7_bit_sets_are_sized_in_words)]
+def r8_the_warning_names_its_numbers(ctx):
+    """`the only differences are a single resource-limit warning`: that warning says which metric was exceeded, what was
+    observed and what the limit is.  The operands handed to its format string follow the order of the words in the template
+    (`observed {}` gets .observed, `limit {}` gets .limit); both are integers of one type, so the swap type-checks."""
+    fn = ctx.need("resolver::Resolver::emit_analysis_warnings")
+    ctx.touch(fn)
+    done = False
+    for c in fn.calls():
+        if not (c.callee or "").endswith("Arguments::new"):
+            continue
+        tmpl = sh(ne(fn.deep(c.args[0], 4)))
+        if "observed" not in tmpl or "limit" not in tmpl:
+            continue
+        # the tuple of operands
+        order = None
+        for b in sorted(fn.live):
+            for st in fn.blocks[b]["s"]:
+                rv = st["rv"]
+                if rv["k"] == "agg" and "tuple" in str(rv.get("adt", "")).lower() and len(rv["ops"]) >= 3:
+                    names = [sh(ne(fn.deep(o, 10))) for o in rv["ops"]]
+                    tails = [re.sub(r".*\.", "", x) for x in names]
+                    if "observed" in tails and "limit" in tails:
+                        order = tails
+        if order is None:
+            continue
+        done = True
+        words = [w for w in re.findall(r"(observed|limit)\s*\\xc0", tmpl)]
+        ops = [t for t in order if t in ("observed", "limit")]
+        if words == ops:
+            ctx.ok("limit-warning|operands", fn.where(c.block), "template %s <- %s" % (words, ops))
+        else:
+            ctx.bad("limit-warning|operands|%s" % ",".join(ops), fn.where(c.block), "the resource-limit warning prints %s where its text says %s: the observed size and the limit are exchanged (`observed 65536, limit 65537` for a program of 65537 blocks)" % (ops, words))
+    if not done:
+        ctx.bad("limit-warning|anchor", fn.where(), "the resource-limit warning's format call was not found in emit_analysis_warnings")
+
+
+RULES = [("C18-R1", r1_skip_path), ("C18-R2", r2_every_cap_compared), ("C18-R2b", r2b_derived_bounds_shape), ("C18-R3", r3_no_plan_runs_everything), ("C18-R3b", r3b_facts_independent_of_plan), ("C18-R4", r4_caps_only_gate_the_analyses), ("C18-R5", r5_fallback_marks_every_local), ("C18-R6", r6_budget_charges_growth_only), ("C18-R7", r7_bit_sets_are_sized_in_words), ("C18-R8", r8_the_warning_names_its_numbers)]
 
 EXPLANATION = (
     "R1: in Resolver::emit_analysis_warnings the preflight count and first_exceeded_limit(.., DEFAULT_CAPS) dominate every "
@@ -423,3 +480,6 @@ EXPLANATION += (
 ASSUMPTIONS = ["the only budget preflight is Resolver::emit_analysis_warnings (who-may-call of first_exceeded_limit is checked by the floor)"]
 TRUSTED = ["rustc nightly MIR", "nsx exporter", "nsverif region/edge-dominance computation"]
 NONTRIVIAL = "one obligation per cap field and per clause of the skip path; distinct = distinct clause/cap"
+EXPLANATION += (
+    " R5 also covers the unused-variable report's fallback (it marks the locals of the calling function, not of the callee). R8: the operands of the resource-limit warning follow the words of its template (observed, then limit)."
+)
